@@ -64,7 +64,7 @@ def _run_json(cmd, wall):
 
 def _replay(pid, module_path, spec, fname, args, tag):
   """Replay a counterexample in a fresh interpreter without CrossHair."""
-  d = os.path.join(VERIF, 'replays', pid)
+  d = os.path.join(os.environ.get('VP_REPLAYS', os.path.join(VERIF, 'replays')), pid)
   os.makedirs(d, exist_ok=True)
   info = dict(property=pid, engine='X', module=module_path, harness=spec.name,
               function=spec.replay or fname, args=args, found_by=tag)
@@ -95,7 +95,7 @@ def check(pid, tier, seed=0, jobs=None, only=None, keep_work=False):
   if not mods:
     print('no harness module for', pid)
     return EXIT_HARNESS_ERROR
-  work = os.path.join(VERIF, '.work', pid, tier)
+  work = os.path.join(VERIF, '.work', pid, '%s-%d' % (tier, os.getpid()))
   shutil.rmtree(work, ignore_errors=True)
   os.makedirs(work)
   os.environ['VP_TMP'] = os.path.join(VERIF, '.work', 'tmp-%d' % os.getpid())
@@ -190,7 +190,7 @@ def check(pid, tier, seed=0, jobs=None, only=None, keep_work=False):
         elif lem['verdict'] == 'refuted':
           ok = None
           detail = 'no replay function'
-          d = os.path.join(VERIF, 'replays', pid)
+          d = os.path.join(os.environ.get('VP_REPLAYS', os.path.join(VERIF, 'replays')), pid)
           os.makedirs(d, exist_ok=True)
           info = dict(property=pid, engine='S', module=t['module'], harness=spec.name,
                       model=dict(lemma=lem['name'], model=lem.get('model')))
@@ -323,8 +323,9 @@ def check(pid, tier, seed=0, jobs=None, only=None, keep_work=False):
   )
   evidence = dict(property_id=pid, tier=tier, seed=int(seed), level=level, coverage=coverage,
                   assumptions=assumptions, wall_s=wall, violations=len(ev['violations']))
-  os.makedirs(os.path.join(VERIF, 'evidence'), exist_ok=True)
-  with open(os.path.join(VERIF, 'evidence', pid + '.json'), 'w') as fh:
+  evdir = os.environ.get('VP_EVIDENCE', os.path.join(VERIF, 'evidence'))
+  os.makedirs(evdir, exist_ok=True)
+  with open(os.path.join(evdir, pid + '.json'), 'w') as fh:
     json.dump(evidence, fh, indent=1, sort_keys=True, default=repr)
 
   # ---- report --------------------------------------------------------------
